@@ -110,21 +110,82 @@ pub fn check_prog(c: &ProgCase, rec: &mut CaseRec) -> Verdict {
     Verdict::Pass
 }
 
+/// `n` FOR loops over distinct variables left open, then a counter-guarded jump (GOTO, or a
+/// GOSUB that never returns) back to the FOR of loop `j`: the documented limit of 32 open
+/// loops met by the documented "re-entering a FOR forgets it and its inner loops".
+#[derive(Serialize, Deserialize, Debug, Clone)]
+pub struct LoopCapCase {
+    pub n: u32,
+    pub j: u32,
+    pub via_gosub: bool,
+    pub packed: bool,
+}
+
+fn loop_cap_program(c: &LoopCapCase) -> Program {
+    let k = || Expr::var("K");
+    let mut lines = vec![Line { number: 10, stmts: vec![Stmt::Let { target: LValue::Var("K".into()), value: Expr::Num(0.0), with_let: false }] }];
+    let fors: Vec<Stmt> = (1..=c.n).map(|i| Stmt::For { var: format!("C{}", i), from: Expr::Num(1.0), to: Expr::Num(2.0), step: None }).collect();
+    let target = if c.packed { 100 } else { 100 + c.j.clamp(1, c.n.max(1)) as u64 };
+    if c.packed {
+        // all loops on one line: the jump re-enters the outermost one
+        lines.push(Line { number: 100, stmts: fors });
+    } else {
+        for (i, f) in fors.into_iter().enumerate() {
+            lines.push(Line { number: 101 + i as u64, stmts: vec![f] });
+        }
+    }
+    lines.push(Line {
+        number: 500,
+        stmts: vec![
+            Stmt::Let { target: LValue::Var("K".into()), value: Expr::bin(BinOp::Add, k(), Expr::Num(1.0)), with_let: false },
+            Stmt::Print(vec![PrintItem::Expr(k()), PrintItem::Semi]),
+        ],
+    });
+    let jump = if c.via_gosub { Stmt::Gosub(target) } else { Stmt::Goto(target) };
+    lines.push(Line { number: 510, stmts: vec![Stmt::If { cond: Expr::bin(BinOp::Lt, k(), Expr::Num(4.0)), then: Branch::Stmt(Box::new(jump)), els: None }] });
+    lines.push(Line { number: 520, stmts: vec![Stmt::Print(vec![PrintItem::Expr(Expr::Str("end".into()))])] });
+    if c.n >= 1 {
+        lines.push(Line { number: 530, stmts: vec![Stmt::Next(format!("C{}", c.n)), Stmt::Print(vec![PrintItem::Expr(Expr::Str("after".into()))])] });
+    }
+    Program { lines }
+}
+
+fn check_loop_cap(c: &LoopCapCase, rec: &mut CaseRec) -> Verdict {
+    let v = check_prog(&ProgCase { prog: loop_cap_program(c), style: Style::PLAIN, seed: 0 }, rec);
+    rec.class("loop-cap-reentry");
+    v
+}
+
+const LOOP_CAP_NS: [u32; 6] = [1, 30, 31, 32, 33, 34];
+
 pub fn case_strategy(cfg: GenCfg) -> impl Strategy<Value = ProgCase> {
     (gen::program(cfg), gen::style(), prop_oneof![Just(0u64), any::<u64>()]).prop_map(|(prog, style, seed)| ProgCase { prog, style, seed })
 }
 
 pub fn property() -> Property {
-    let families: Vec<Box<dyn Family>> = vec![prop_family(
-        "programs",
-        150_000,
-        3_000_000,
-        |_| case_strategy(GenCfg::C03),
-        check_prog,
-    )];
+    let families: Vec<Box<dyn Family>> = vec![
+        enum_family(
+            "loop-cap-reentry",
+            true,
+            |_| (LOOP_CAP_NS.len() * 5 * 2 * 2) as u64,
+            |_, i| {
+                let n = LOOP_CAP_NS[(i % 6) as usize];
+                let j = match (i / 6) % 5 {
+                    0 => 1,
+                    1 => 2,
+                    2 => n / 2,
+                    3 => n.saturating_sub(1),
+                    _ => n,
+                };
+                LoopCapCase { n, j, via_gosub: (i / 30) % 2 == 1, packed: (i / 60) % 2 == 1 }
+            },
+            check_loop_cap,
+        ),
+        prop_family("programs", 150_000, 3_000_000, |_| case_strategy(GenCfg::C03), check_prog),
+    ];
     Property {
         id: "C03",
-        rule: "Structured programs from the grammar of DESIGN 2.1 (nested FOR incl. NEXT of an outer variable, loops left by GOTO, counter-guarded backward jumps, GOSUB from THEN/ELSE, subroutines falling into each other, GOSUB recursion to the 32-frame cap, READ/DATA/RESTORE, DIM and implicit arrays of 1-3 dimensions, DEF with dynamic scoping, all ELSE forms, injected runtime failures), laid out on numbered lines with random packing, rendered with random spacing/case, RUN under a seed; printed output and (error kind, line) must equal the reference interpreter's. Non-trivial: the model executed >= 8 statements and touched >= 2 feature classes (loop, subroutine, conditional, else, data, array, function, runtime error); distinct by program text. Programs that exceed the statement budget are compared on the printed prefix (class 'budget').",
+        rule: "loop-cap-reentry (exhaustive list): 1 / 30-34 FOR loops over distinct variables left open (one per line or all on one line), then a counter-guarded GOTO or non-returning GOSUB back to the FOR of the outermost, second, middle, last-but-one or innermost loop, three times round, then NEXT of the innermost - the 32-loop limit met by FOR re-entry. programs: Structured programs from the grammar of DESIGN 2.1 (nested FOR incl. NEXT of an outer variable, loops left by GOTO, counter-guarded backward jumps, GOSUB from THEN/ELSE, subroutines falling into each other, GOSUB recursion to the 32-frame cap, READ/DATA/RESTORE, DIM and implicit arrays of 1-3 dimensions, DEF with dynamic scoping, all ELSE forms, injected runtime failures), laid out on numbered lines with random packing, rendered with random spacing/case, RUN under a seed; printed output and (error kind, line) must equal the reference interpreter's. Non-trivial: the model executed >= 8 statements and touched >= 2 feature classes (loop, subroutine, conditional, else, data, array, function, runtime error); distinct by program text. Programs that exceed the statement budget are compared on the printed prefix (class 'budget').",
         assumptions: vec![
             "the reference interpreter (harness/src/model.rs) is the trusted statement of the documented semantics",
             "generated programs stay inside the documented ELSE forms; jump targets are integers below 2^53",
